@@ -5,6 +5,7 @@ import DaskModel.Model.TaskTermIO
 import DaskModel.Model.LegacyOpt
 import DaskModel.Model.Rename
 import DaskModel.Model.Pickle
+import DaskModel.Model.ExecGraph
 import DaskModel.Model.OrderIO
 import DaskModel.Model.RenameIO
 import DaskModel.Model.SpecOptIO
@@ -216,6 +217,19 @@ def hBwLeaf : Handler := handler fun
     pure (SExp.ofBool (blockwiseLeaf (← objs? names) idx (← objs? nb)))
   | _ => none
 
+/-- `(exec_ordered graph-listed-in-execution-order cache keys|nokeys)`: `execute_graph` as it runs (reference counts,
+    deletion of values that are no longer needed) ↦ the returned cache -/
+def hExecOrdered : Handler := handler fun
+  | [g, cache, keys] => do
+    let g ← ngraph? g
+    let keys ← match keys with
+      | .sym "nokeys" => some none
+      | e => (objs? e).map some
+    match execOrdered g (g.map Prod.fst) (← lgraph? cache) keys with
+    | some res => pure (.list [.sym "ok", ofLGraph res])
+    | none => pure (.list [.sym "raised"])
+  | _ => none
+
 def hExecGraph : Handler := handler fun
   | [g, cache] => do
     match executeGraph (← ngraph? g) (envOf (← lgraph? cache)) with
@@ -230,7 +244,7 @@ def table : List (String × Handler) :=
    ("reverse_dict", GraphDrv.hReverseDict), ("valid_order", GraphDrv.hValidOrder), ("strip_prios", GraphDrv.hStripPrios), ("strip", GraphDrv.hStrip),
    ("convert", TermDrv.hConvert), ("convert_graph", TermDrv.hConvertGraph), ("core_get", TermDrv.hCoreGet),
    ("legacy_get", TermDrv.hLegacyGet), ("eval_node", TermDrv.hEvalNode), ("deps", TermDrv.hDeps),
-   ("exec_graph", TermDrv.hExecGraph), ("legacy_refs", TermDrv.hLegacyRefs), ("alias_init", TermDrv.hAliasInit),
+   ("exec_graph", TermDrv.hExecGraph), ("exec_ordered", TermDrv.hExecOrdered), ("legacy_refs", TermDrv.hLegacyRefs), ("alias_init", TermDrv.hAliasInit),
    ("task_roundtrip", TermDrv.hTaskRoundtrip), ("container_roundtrip", TermDrv.hContainerRoundtrip),
    ("slots", TermDrv.hSlots),
    ("subs", TermDrv.hSubs), ("cull", TermDrv.hCull), ("fuse_ok", TermDrv.hFuseOK), ("fuse_okr", TermDrv.hFuseOKR), ("bw_leaf", TermDrv.hBwLeaf),
